@@ -37,6 +37,30 @@ def main(tier):
                                    f"ast {a!r} live {lv!r}")
         for var, s in vals.items():
             rep.add_ground(f"{pre}/all-classes-share/{var}", len(s) == 1, sorted(map(str, s)))
+        # every class the module's entities *use* (reachable through field types) belongs to this module and version
+        import dataclasses
+        import typing
+        seen, todo = set(), list(live.values())
+        while todo:
+            C = todo.pop()
+            if C in seen:
+                continue
+            seen.add(C)
+            try:
+                hints = typing.get_type_hints(C)
+            except Exception:       # noqa: BLE001
+                continue
+            for f in dataclasses.fields(C):
+                stack = [hints[f.name]]
+                while stack:
+                    t = stack.pop()
+                    stack.extend(typing.get_args(t))
+                    if isinstance(t, type) and dataclasses.is_dataclass(t):
+                        todo.append(t)
+        for C in sorted(seen, key=lambda c: c.__qualname__):
+            rep.add_ground(f"{pre}/uses/{C.__name__}/defined-in-this-module", C.__module__ == modname, C.__module__)
+            rep.add_ground(f"{pre}/uses/{C.__name__}/carries-module-version", int(getattr(C, "__version__", -1)) == ver,
+                           f"{getattr(C, '__version__', None)} vs v{ver}")
         version = next(iter(vals["__version__"])) if len(vals["__version__"]) == 1 else None
         rep.add_ground(f"{pre}/path-version-equals-class-version", version == ver, f"path v{ver}, classes {version}")
         if len(top) == 1:
